@@ -3,11 +3,12 @@ import Mathlib.Tactic.Linarith
 /-! Helper lemmas for the client bookkeeping theorems of C18 (repaired code, `Variant.fixed`). -/
 namespace Pool.C18
 
-/-- only transport errors (before the challenge / between challenge and subscribe / after the subscribe) hit
-handshakes -/
-def TransportOnly (l : List Beh) : Prop := ∀ b ∈ l, b = Beh.ok ∨ b = Beh.errBC ∨ b = Beh.errAC ∨ b = Beh.errMid
+/-- the property's fault model for a handshake: answered normally, hit by a transport error (before the challenge /
+between challenge and subscribe / after the subscribe) or by a shutdown notice (before / after the challenge) -/
+def FaultsOnly (l : List Beh) : Prop :=
+  ∀ b ∈ l, b = Beh.ok ∨ b = Beh.errBC ∨ b = Beh.errAC ∨ b = Beh.errMid ∨ b = Beh.shutBC ∨ b = Beh.shutAC
 
-theorem TransportOnly.tail {b : Beh} {l : List Beh} (h : TransportOnly (b :: l)) : TransportOnly l :=
+theorem FaultsOnly.tail {b : Beh} {l : List Beh} (h : FaultsOnly (b :: l)) : FaultsOnly l :=
   fun x hx => h x (List.mem_cons_of_mem _ hx)
 
 /-- the newest stream is alive and carries exactly one acknowledged subscription per map entry -/
@@ -18,95 +19,176 @@ structure Live (c : Client) : Prop where
   succ : c.cur.success = c.cur.subs
   nodup : c.accts.Nodup
   chaos : c.chaos = false
+  fo : c.failOpen = 0
 
 /-- what a successful (possibly nested-reconnecting) step guarantees -/
 structure Post (c c' : Client) (extra : List Nat) : Prop where
   live : Live c'
   perm : List.Perm c'.accts (c.accts ++ extra)
-  tr : TransportOnly c'.beh
+  tr : FaultsOnly c'.beh
   len : c'.beh.length ≤ c.beh.length
   str : c.streams.length ≤ c'.streams.length
+
+/-- what a step aborted by a shutdown notice guarantees: the map still knows every account (the re-connect that
+starts over will subscribe them), and a behaviour of the script was consumed -/
+structure Aborted (c c' : Client) (extra : List Nat) : Prop where
+  nodup : c'.accts.Nodup
+  perm : List.Perm c'.accts (c.accts ++ extra)
+  chaos : c'.chaos = false
+  fo : c'.failOpen = 0
+  tr : FaultsOnly c'.beh
+  len : c'.beh.length < c.beh.length
+  str : c.streams.length ≤ c'.streams.length
+
+/-- the two ways a handshake / a re-subscription loop can end inside the fault model -/
+def Outcome (c c' : Client) (r : HsRes) (extra : List Nat) : Prop :=
+  (r = .ok ∧ Post c c' extra) ∨ (r = .errShutdown ∧ Aborted c c' extra)
 
 abbrev hsF (pick : List Nat → List Nat) (n : Nat) := hsLevel Variant.fixed pick n
 
 /-- statement proved by induction on the depth `n` -/
 def PHs (pick : List Nat → List Nat) (n : Nat) : Prop :=
-  ∀ (c : Client) (a : Nat), Live c → a ∉ c.accts → TransportOnly c.beh → c.beh.length ≤ n →
-    ∃ c', hsF pick n c a = (c', .ok) ∧ Post c c' [a]
+  ∀ (c : Client) (a : Nat), Live c → a ∉ c.accts → FaultsOnly c.beh → c.beh.length ≤ n →
+    ∃ c' r, hsF pick n c a = (c', r) ∧ Outcome c c' r [a]
 
 theorem setCur_fields (c : Client) (f : Stream → Stream) :
     (c.setCur f).accts = c.accts ∧ (c.setCur f).beh = c.beh ∧
     (c.setCur f).refuse = c.refuse ∧ (c.setCur f).attempts = c.attempts ∧ (c.setCur f).chaos = c.chaos ∧
     (c.setCur f).streams.length = c.streams.length ∧
-    (c.setCur f).isOpen = c.isOpen ∧ (c.setCur f).mainErrs = c.mainErrs ∧ (c.setCur f).handlerRes = c.handlerRes := by
+    (c.setCur f).isOpen = c.isOpen ∧ (c.setCur f).mainErrs = c.mainErrs ∧ (c.setCur f).handlerRes = c.handlerRes ∧
+    (c.setCur f).failOpen = c.failOpen := by
   unfold Client.setCur; split <;> simp_all
 
 theorem closeStream_fields (c : Client) :
     c.closeStream.accts = c.accts ∧ c.closeStream.beh = c.beh ∧ c.closeStream.refuse = c.refuse ∧
     c.closeStream.attempts = c.attempts ∧ c.closeStream.chaos = c.chaos ∧
     c.closeStream.streams.length = c.streams.length ∧ c.closeStream.mainErrs = c.mainErrs ∧
-    c.closeStream.handlerRes = c.handlerRes := by
+    c.closeStream.handlerRes = c.handlerRes ∧ c.closeStream.failOpen = c.failOpen := by
   unfold Client.closeStream
   split
-  · obtain ⟨h1, h2, h3, h4, h5, h6, _, h8, h9⟩ := setCur_fields c (fun s => { s with alive := false })
-    exact ⟨h1, h2, h3, h4, h5, h6, h8, h9⟩
+  · obtain ⟨h1, h2, h3, h4, h5, h6, _, h8, h9, h10⟩ := setCur_fields c (fun s => { s with alive := false })
+    exact ⟨h1, h2, h3, h4, h5, h6, h8, h9, h10⟩
   · simp
+
+theorem filter_not_contains_self {l rest : List Nat} (h : ∀ x ∈ rest, x ∉ l) :
+    rest.filter (fun a => !l.contains a) = rest := by
+  apply List.filter_eq_self.mpr
+  intro x hx
+  simp [h x hx]
 
 /-- the re-subscription loop, given the handshake statement at the same depth -/
 theorem loop_of_P (pick : List Nat → List Nat) (n : Nat) (hP : PHs pick n) :
-    ∀ (ord : List Nat) (c : Client), Live c → ord.Nodup → (∀ a ∈ ord, a ∉ c.accts) → TransportOnly c.beh →
+    ∀ (ord : List Nat) (c : Client), Live c → ord.Nodup → (∀ a ∈ ord, a ∉ c.accts) → FaultsOnly c.beh →
       c.beh.length ≤ n →
-      ∃ c', c.resubLoop Variant.fixed (hsF pick n) ord = (c', .ok) ∧ Post c c' ord := by
+      ∃ c' r, c.resubLoop Variant.fixed (hsF pick n) ord = (c', r) ∧ Outcome c c' r ord := by
   intro ord
   induction ord with
   | nil =>
     intro c hl _ _ ht _
-    exact ⟨c, rfl, ⟨hl, by simp, ht, le_refl _, le_refl _⟩⟩
+    exact ⟨c, .ok, rfl, Or.inl ⟨rfl, ⟨hl, by simp, ht, le_refl _, le_refl _⟩⟩⟩
   | cons a rest ih =>
     intro c hl hnd hdis ht hlen
     have hnd' := List.nodup_cons.mp hnd
-    obtain ⟨c1, h1, p1⟩ := hP c a hl (hdis a (by simp)) ht hlen
-    have hdis1 : ∀ x ∈ rest, x ∉ c1.accts := by
-      intro x hx hin
-      have := p1.perm.subset hin
+    obtain ⟨c1, r1, h1, o1⟩ := hP c a hl (hdis a (by simp)) ht hlen
+    have hdis1 : ∀ p : List.Perm c1.accts (c.accts ++ [a]), ∀ x ∈ rest, x ∉ c1.accts := by
+      intro p x hx hin
+      have := p.subset hin
       simp only [List.mem_append, List.mem_singleton] at this
       rcases this with h | h
       · exact hdis x (by simp [hx]) h
       · subst h; exact hnd'.1 hx
-    obtain ⟨c2, h2, p2⟩ := ih c1 p1.live hnd'.2 hdis1 p1.tr (le_trans p1.len hlen)
-    refine ⟨c2, ?_, ⟨p2.live, ?_, p2.tr, le_trans p2.len p1.len, le_trans p1.str p2.str⟩⟩
-    · simp only [Client.resubLoop, h1]; exact h2
-    · have : List.Perm (c1.accts ++ rest) ((c.accts ++ [a]) ++ rest) := List.Perm.append_right _ p1.perm
-      exact (p2.perm.trans this).trans (by simp)
+    have hcomp : ∀ l : List Nat, List.Perm l (c1.accts ++ rest) → List.Perm c1.accts (c.accts ++ [a]) →
+        List.Perm l (c.accts ++ a :: rest) := by
+      intro l p2 p1
+      have : List.Perm (c1.accts ++ rest) ((c.accts ++ [a]) ++ rest) := List.Perm.append_right _ p1
+      exact (p2.trans this).trans (by simp)
+    rcases o1 with ⟨rfl, p1⟩ | ⟨rfl, a1⟩
+    · obtain ⟨c2, r2, h2, o2⟩ := ih c1 p1.live hnd'.2 (hdis1 p1.perm) p1.tr (le_trans p1.len hlen)
+      refine ⟨c2, r2, by simp only [Client.resubLoop, h1]; exact h2, ?_⟩
+      rcases o2 with ⟨rfl, p2⟩ | ⟨rfl, a2⟩
+      · exact Or.inl ⟨rfl, ⟨p2.live, hcomp _ p2.perm p1.perm, p2.tr, le_trans p2.len p1.len, le_trans p1.str p2.str⟩⟩
+      · exact Or.inr ⟨rfl, ⟨a2.nodup, hcomp _ a2.perm p1.perm, a2.chaos, a2.fo, a2.tr,
+          lt_of_lt_of_le a2.len p1.len, le_trans p1.str a2.str⟩⟩
+    · -- the notice hit this handshake: keepSubscriptions(rest), return the error
+      have hk : keepAccts c1.accts rest = c1.accts ++ rest := by
+        unfold keepAccts; rw [filter_not_contains_self (hdis1 a1.perm)]
+      refine ⟨{ c1 with accts := keepAccts c1.accts rest }, .errShutdown,
+        by simp [Client.resubLoop, h1, Variant.fixed], Or.inr ⟨rfl, ⟨?_, ?_, a1.chaos, a1.fo, a1.tr, a1.len, a1.str⟩⟩⟩
+      · show (keepAccts c1.accts rest).Nodup
+        rw [hk]
+        exact List.nodup_append.mpr ⟨a1.nodup, hnd'.2, by
+          intro x hx y hy e; subst e; exact hdis1 a1.perm x hy hx⟩
+      · show List.Perm (keepAccts c1.accts rest) _
+        rw [hk]; exact hcomp _ (List.Perm.refl _) a1.perm
 
-/-- `HandleServerShutdown`, given the handshake statement at the same depth: whatever state the old stream is in, it
-ends with a live stream carrying every account of the map exactly once -/
-theorem hss_of_P (pick : List Nat → List Nat) (hpick : ∀ l, List.Perm (pick l) l) (n : Nat) (hP : PHs pick n)
-    (c : Client) (hnd : c.accts.Nodup) (hch : c.chaos = false) (ht : TransportOnly c.beh)
+/-- one `reconnect` attempt from any state: either everything is subscribed on a live new stream, or a shutdown
+notice aborted it with the whole map kept -/
+theorem once_of_P (pick : List Nat → List Nat) (hpick : ∀ l, List.Perm (pick l) l) (n : Nat) (hP : PHs pick n)
+    (c : Client) (hnd : c.accts.Nodup) (hch : c.chaos = false) (hfo : c.failOpen = 0) (ht : FaultsOnly c.beh)
     (hlen : c.beh.length ≤ n) :
-    ∃ c', c.handleShutdown Variant.fixed pick (hsF pick n) = (c', .ok) ∧ Live c' ∧
-      List.Perm c'.accts c.accts ∧ TransportOnly c'.beh ∧ c'.beh.length ≤ c.beh.length ∧
-      c.streams.length < c'.streams.length := by
-  obtain ⟨ha, hb, _, _, hc, hsl, _, _⟩ := closeStream_fields c
+    ∃ c1 r, c.reconnectOnce Variant.fixed pick (hsF pick n) = (c1, r) ∧
+      ((r = .ok ∧ Live c1 ∧ List.Perm c1.accts c.accts ∧ FaultsOnly c1.beh ∧ c1.beh.length ≤ c.beh.length ∧
+          c.streams.length < c1.streams.length) ∨
+       (r = .errShutdown ∧ c1.accts.Nodup ∧ List.Perm c1.accts c.accts ∧ c1.chaos = false ∧ c1.failOpen = 0 ∧
+          FaultsOnly c1.beh ∧ c1.beh.length < c.beh.length ∧ c.streams.length < c1.streams.length)) := by
+  obtain ⟨ha, hb, _, _, hc, hsl, _, _, hf⟩ := closeStream_fields c
+  have hf0 : c.closeStream.failOpen = 0 := by rw [hf]; exact hfo
   let c0 : Client := { c.closeStream.connectStream with accts := [] }
   have hl0 : Live c0 := by
-    refine ⟨rfl, ?_, ?_, ?_, ?_, ?_⟩ <;> simp [c0, Client.connectStream, Client.cur, hc, hch]
-  have hbeh0 : c0.beh = c.beh := by simp [c0, Client.connectStream, hb]
+    refine ⟨?_, ?_, ?_, ?_, ?_, ?_, ?_⟩ <;> simp [c0, Client.connectStream, Client.cur, hc, hch, hf0]
+  have hbeh0 : c0.beh = c.beh := by simp [c0, Client.connectStream, hb, hf0]
+  have hstr0 : c0.streams.length = c.streams.length + 1 := by simp [c0, Client.connectStream, hf0, hsl]
   have hord : (pick c.accts).Nodup := (hpick _).nodup_iff.mpr hnd
-  obtain ⟨c', h, p⟩ := loop_of_P pick n hP (pick c.accts) c0 hl0 hord (by simp [c0])
+  obtain ⟨c1, r, h, o⟩ := loop_of_P pick n hP (pick c.accts) c0 hl0 hord (by simp [c0])
     (by rw [hbeh0]; exact ht) (by rw [hbeh0]; exact hlen)
-  refine ⟨c', ?_, p.live, ?_, p.tr, by simpa [hbeh0] using p.len, ?_⟩
-  · have e : (c.closeStream.connectStream).accts = c.accts := by simp [Client.connectStream, ha]
-    simp only [Client.handleShutdown, e]
-    have : ({ c.closeStream.connectStream with accts := [] } : Client).resubLoop Variant.fixed (hsF pick n)
-        (pick c.accts) = (c', .ok) := h
-    rw [this]
-  · have := p.perm
-    simp only [c0, List.nil_append] at this
-    exact this.trans (hpick _)
-  · have := p.str
-    simp only [c0, Client.connectStream, List.length_cons, hsl] at this
-    omega
+  have e : (c.closeStream.connectStream).accts = c.accts := by simp [Client.connectStream, ha, hf0]
+  have eo : ¬ ((!(c.closeStream.connectStream).isOpen) = true) := by simp [Client.connectStream, hf0]
+  refine ⟨c1, r, ?_, ?_⟩
+  · unfold Client.reconnectOnce
+    dsimp only
+    rw [if_neg eo, e]
+    exact h
+  · have pc : ∀ l : List Nat, List.Perm l (c0.accts ++ pick c.accts) → List.Perm l c.accts := by
+      intro l p
+      simp only [c0, List.nil_append] at p
+      exact p.trans (hpick _)
+    rcases o with ⟨rfl, p⟩ | ⟨rfl, a1⟩
+    · exact Or.inl ⟨rfl, p.live, pc _ p.perm, p.tr, by simpa [hbeh0] using p.len, by have := p.str; omega⟩
+    · exact Or.inr ⟨rfl, a1.nodup, pc _ a1.perm, a1.chaos, a1.fo, a1.tr, by simpa [hbeh0] using a1.len,
+        by have := a1.str; omega⟩
+
+/-- `HandleServerShutdown`, given the handshake statement at the same depth: whatever state the old stream is in, and
+however many shutdown notices make it start over, it ends with a live stream carrying every account of the map
+exactly once -/
+theorem hss_of_P (pick : List Nat → List Nat) (hpick : ∀ l, List.Perm (pick l) l) (n : Nat) (hP : PHs pick n) :
+    ∀ (fuel : Nat) (c : Client), c.accts.Nodup → c.chaos = false → c.failOpen = 0 → FaultsOnly c.beh →
+      c.beh.length ≤ n → c.beh.length ≤ fuel →
+      ∃ c', c.handleShutdown Variant.fixed pick (hsF pick n) fuel = (c', .ok) ∧ Live c' ∧
+        List.Perm c'.accts c.accts ∧ FaultsOnly c'.beh ∧ c'.beh.length ≤ c.beh.length ∧
+        c.streams.length < c'.streams.length := by
+  intro fuel
+  induction fuel with
+  | zero =>
+    intro c hnd hch hfo ht hlen hfu
+    obtain ⟨c1, r, honce, o⟩ := once_of_P pick hpick n hP c hnd hch hfo ht hlen
+    rcases o with ⟨rfl, hl, hp, ht1, hl1, hs1⟩ | ⟨rfl, _, _, _, _, _, hl1, _⟩
+    · exact ⟨c1, by simp [Client.handleShutdown, honce], hl, hp, ht1, hl1, hs1⟩
+    · omega
+  | succ f ih =>
+    intro c hnd hch hfo ht hlen hfu
+    obtain ⟨c1, r, honce, o⟩ := once_of_P pick hpick n hP c hnd hch hfo ht hlen
+    rcases o with ⟨rfl, hl, hp, ht1, hl1, hs1⟩ | ⟨rfl, hnd1, hp1, hch1, hfo1, ht1, hl1, hs1⟩
+    · exact ⟨c1, by simp [Client.handleShutdown, honce], hl, hp, ht1, hl1, hs1⟩
+    · -- the reader of the new stream closed it and marked the re-connect dirty: start over
+      obtain ⟨ga, gb, _, _, gc, gsl, _, _, gf⟩ := closeStream_fields c1
+      obtain ⟨c', h, hl', hp', ht', hlen', hs'⟩ := ih c1.closeStream (by rw [ga]; exact hnd1) (by rw [gc]; exact hch1)
+        (by rw [gf]; exact hfo1) (by rw [gb]; exact ht1) (by rw [gb]; omega) (by rw [gb]; omega)
+      refine ⟨c', ?_, hl', ?_, ht', ?_, ?_⟩
+      · rw [Client.handleShutdown, honce]
+        simpa [Variant.fixed] using h
+      · rw [ga] at hp'; exact hp'.trans hp1
+      · rw [gb] at hlen'; omega
+      · rw [gsl] at hs'; omega
 
 theorem handlerLoop_ok (v : Variant) (hsd : Client → Client × HsRes) (fuel : Nat) (c c' : Client)
     (h : hsd c = (c', .ok)) :
@@ -138,7 +220,7 @@ theorem hs_unfold (v : Variant) (inl : Client → Client × HsRes) (c : Client) 
   cases beh.headD Beh.ok <;> rfl
 
 /-- a handshake answered `ok` on a live stream -/
-theorem hs_ok_post (c : Client) (a : Nat) (hl : Live c) (ha : a ∉ c.accts) (ht : TransportOnly c.beh) :
+theorem hs_ok_post (c : Client) (a : Nat) (hl : Live c) (ha : a ∉ c.accts) (ht : FaultsOnly c.beh) :
     Post c (({ c with accts := c.accts ++ [a], beh := c.beh.tail } : Client).setCur
       fun s => { s with subs := s.subs ++ [a], success := s.success ++ [a] }) [a] := by
   obtain ⟨s, ss, hs⟩ : ∃ s ss, c.streams = s :: ss := by
@@ -148,7 +230,7 @@ theorem hs_ok_post (c : Client) (a : Nat) (hl : Live c) (ha : a ∉ c.accts) (ht
   have hp : List.Perm s.subs c.accts := by simpa [Client.cur, hs] using hl.perm
   have hsu : s.success = s.subs := by simpa [Client.cur, hs] using hl.succ
   have hal : s.alive = true := by simpa [Client.cur, hs] using hl.alive
-  refine ⟨⟨?_, ?_, ?_, ?_, ?_, ?_⟩, ?_, ?_, ?_, ?_⟩
+  refine ⟨⟨?_, ?_, ?_, ?_, ?_, ?_, ?_⟩, ?_, ?_, ?_, ?_⟩
   · simp [Client.setCur, hs, hl.isOpen]
   · simp [Client.setCur, hs, Client.cur, hal]
   · simp only [Client.setCur, hs, Client.cur, List.headD_cons]; exact List.Perm.append_right _ hp
@@ -157,74 +239,91 @@ theorem hs_ok_post (c : Client) (a : Nat) (hl : Live c) (ha : a ∉ c.accts) (ht
     exact List.nodup_append.mpr ⟨hl.nodup, by simp, by
       intro x hx y hy; simp at hy; subst hy; intro e; subst e; exact ha hx⟩
   · simp [Client.setCur, hs, hl.chaos]
+  · simp [Client.setCur, hs, hl.fo]
   · simp [Client.setCur, hs]
   · simp only [Client.setCur, hs]
     intro b hb; exact ht b (List.mem_of_mem_tail hb)
   · simp [Client.setCur, hs]
   · simp [Client.setCur, hs]
 
-/-- **every handshake of the repaired client ends subscribed**, at any recursion depth that covers the script: a
-transport error at any point of the handshake is absorbed by an inline reconnect that re-subscribes the whole map -/
+/-- **every handshake of the repaired client ends inside the fault model as `Outcome` says**, at any recursion depth
+that covers the script: a transport error at any point of the handshake is absorbed by an inline reconnect that
+re-subscribes the whole map (and itself starts over on shutdown notices); a shutdown notice on the handshake itself
+aborts it with the account kept in the map -/
 theorem PHs_all (pick : List Nat → List Nat) (hpick : ∀ l, List.Perm (pick l) l) : ∀ n, PHs pick n := by
   intro n
   induction n with
   | zero =>
     intro c a hl ha ht hlen
     have hnil : c.beh = [] := List.eq_nil_of_length_eq_zero (Nat.le_zero.mp hlen)
-    refine ⟨_, ?_, hs_ok_post c a hl ha ht⟩
+    refine ⟨_, .ok, ?_, Or.inl ⟨rfl, hs_ok_post c a hl ha ht⟩⟩
     simp only [hsF, hsLevel]
     rw [hs_unfold _ _ c a hl ha]
     simp [hnil]
   | succ m ih =>
     intro c a hl ha ht hlen
-    -- the state handed to the inline reconnect in the three fault cases
+    have hnd1 : (c.accts ++ [a]).Nodup :=
+      List.nodup_append.mpr ⟨hl.nodup, by simp, by
+        intro x hx y hy; simp at hy; subst hy; intro e; subst e; exact ha hx⟩
+    -- the state handed to the inline reconnect in the three transport-error cases
     have inl : ∀ c2 : Client, c2.accts = c.accts ++ [a] → c2.beh = c.beh.tail → c2.chaos = false →
-        c.streams.length ≤ c2.streams.length → c.beh ≠ [] →
-        ∃ c', c2.handleShutdown Variant.fixed pick (hsF pick m) = (c', .ok) ∧ Post c c' [a] := by
-      intro c2 h1 h2 h3 h4 hne
-      have hnd2 : c2.accts.Nodup := by
-        rw [h1]
-        exact List.nodup_append.mpr ⟨hl.nodup, by simp, by
-          intro x hx y hy; simp at hy; subst hy; intro e; subst e; exact ha hx⟩
-      have ht2 : TransportOnly c2.beh := by
+        c2.failOpen = 0 → c.streams.length ≤ c2.streams.length → c.beh ≠ [] →
+        ∃ c', c2.handleShutdown Variant.fixed pick (hsF pick m) (m + 1) = (c', .ok) ∧ Post c c' [a] := by
+      intro c2 h1 h2 h3 hf2 h4 hne
+      have hnd2 : c2.accts.Nodup := by rw [h1]; exact hnd1
+      have ht2 : FaultsOnly c2.beh := by
         rw [h2]; intro b hb; exact ht b (List.mem_of_mem_tail hb)
       have hlen2 : c2.beh.length ≤ m := by
         rw [h2]
         cases hb : c.beh with
         | nil => exact absurd hb hne
         | cons b t => simp [hb] at hlen ⊢; omega
-      obtain ⟨c', h, hl', hp', ht', hlen', hstr'⟩ := hss_of_P pick hpick m ih c2 hnd2 h3 ht2 hlen2
+      obtain ⟨c', h, hl', hp', ht', hlen', hstr'⟩ :=
+        hss_of_P pick hpick m ih (m + 1) c2 hnd2 h3 hf2 ht2 hlen2 (by omega)
       refine ⟨c', h, ⟨hl', by rw [← h1]; exact hp', ht', ?_, by omega⟩⟩
       rw [h2] at hlen'
       exact le_trans hlen' (by simp)
     simp only [hsF, hsLevel]
     rw [hs_unfold _ _ c a hl ha]
     cases hb : c.beh with
-    | nil => simp only [List.headD_nil]; exact ⟨_, rfl, by simpa [hb] using hs_ok_post c a hl ha ht⟩
+    | nil =>
+      simp only [List.headD_nil]
+      exact ⟨_, .ok, rfl, Or.inl ⟨rfl, by simpa [hb] using hs_ok_post c a hl ha ht⟩⟩
     | cons b t =>
       have hne : c.beh ≠ [] := by simp [hb]
       have hbt := ht b (by simp [hb])
+      have htt : FaultsOnly t := fun x hx => ht x (by simp [hb, hx])
       simp only [List.headD_cons, List.tail_cons]
-      rcases hbt with rfl | rfl | rfl | rfl
-      · exact ⟨_, rfl, by simpa [hb] using hs_ok_post c a hl ha ht⟩
-      · obtain ⟨h1, h2, _, _, h5, h6, _⟩ :=
+      rcases hbt with rfl | rfl | rfl | rfl | rfl | rfl
+      · exact ⟨_, .ok, rfl, Or.inl ⟨rfl, by simpa [hb] using hs_ok_post c a hl ha ht⟩⟩
+      · obtain ⟨h1, h2, _, _, h5, h6, _, _, _, h10⟩ :=
           setCur_fields ({ c with accts := c.accts ++ [a], beh := t } : Client) (fun s => { s with alive := false })
         obtain ⟨c', h, p⟩ := inl (({ c with accts := c.accts ++ [a], beh := t } : Client).failStream)
           h1 (by rw [Client.failStream, h2, hb]; rfl) (by rw [Client.failStream, h5]; exact hl.chaos)
-          (by rw [Client.failStream, h6]) hne
-        exact ⟨c', by simpa [Variant.fixed, hsF] using h, p⟩
-      · obtain ⟨h1, h2, _, _, h5, h6, _⟩ :=
+          (by rw [Client.failStream, h10]; exact hl.fo) (by rw [Client.failStream, h6]) hne
+        exact ⟨c', .ok, by simpa [Variant.fixed, hsF] using h, Or.inl ⟨rfl, p⟩⟩
+      · obtain ⟨h1, h2, _, _, h5, h6, _, _, _, h10⟩ :=
           setCur_fields ({ c with accts := c.accts ++ [a], beh := t } : Client)
             (fun s => { s with subs := s.subs ++ [a], alive := false })
         obtain ⟨c', h, p⟩ := inl (({ c with accts := c.accts ++ [a], beh := t } : Client).setCur
             fun s => { s with subs := s.subs ++ [a], alive := false })
-          h1 (by rw [h2, hb]; rfl) (by rw [h5]; exact hl.chaos) (by rw [h6]) hne
-        exact ⟨c', by simpa [Variant.fixed, hsF] using h, p⟩
-      · obtain ⟨h1, h2, _, _, h5, h6, _⟩ :=
+          h1 (by rw [h2, hb]; rfl) (by rw [h5]; exact hl.chaos) (by rw [h10]; exact hl.fo) (by rw [h6]) hne
+        exact ⟨c', .ok, by simpa [Variant.fixed, hsF] using h, Or.inl ⟨rfl, p⟩⟩
+      · obtain ⟨h1, h2, _, _, h5, h6, _, _, _, h10⟩ :=
           setCur_fields ({ c with accts := c.accts ++ [a], beh := t } : Client) (fun s => { s with alive := false })
         obtain ⟨c', h, p⟩ := inl (({ c with accts := c.accts ++ [a], beh := t } : Client).failStream)
           h1 (by rw [Client.failStream, h2, hb]; rfl) (by rw [Client.failStream, h5]; exact hl.chaos)
-          (by rw [Client.failStream, h6]) hne
-        exact ⟨c', h, p⟩
+          (by rw [Client.failStream, h10]; exact hl.fo) (by rw [Client.failStream, h6]) hne
+        exact ⟨c', .ok, by simpa [hsF] using h, Or.inl ⟨rfl, p⟩⟩
+      · -- shutdown notice instead of the challenge
+        refine ⟨_, .errShutdown, rfl, Or.inr ⟨rfl, ⟨hnd1, List.Perm.refl _, hl.chaos, hl.fo, htt, ?_, le_refl _⟩⟩⟩
+        simp [hb]
+      · -- shutdown notice instead of the final answer
+        obtain ⟨h1, h2, _, _, h5, h6, _, _, _, h10⟩ :=
+          setCur_fields ({ c with accts := c.accts ++ [a], beh := t } : Client)
+            (fun s => { s with subs := s.subs ++ [a] })
+        refine ⟨_, .errShutdown, rfl, Or.inr ⟨rfl, ⟨by rw [h1]; exact hnd1, by rw [h1], by rw [h5]; exact hl.chaos,
+          by rw [h10]; exact hl.fo, by rw [h2]; exact htt, ?_, by rw [h6]⟩⟩⟩
+        rw [h2]; simp [hb]
 
 end Pool.C18
